@@ -1,7 +1,7 @@
 (* Proofs about Model/XLexer.v, part G: fuseBraces accounts for every bracket it was given: each one
    ends up in a fused pair, or its span is a snippet of an unmatched-delimiter error. *)
 From Coq Require Import List NArith ZArith Bool Lia.
-From PV Require Import Model.XLexer Proofs.XLexerStep.
+From PV Require Import Model.XLexer Model.XLexerTables Proofs.XLexerStep.
 Import ListNotations.
 
 Section Braces.
@@ -186,3 +186,128 @@ Proof.
 Qed.
 
 End Braces.
+
+(* part G2: WHICH brackets fuseBraces fuses: an opening bracket with a closing bracket of the same kind *)
+Section Pairs.
+Variable C : cfg.
+
+(* o is an opening bracket and c is the closing bracket of the same kind *)
+Definition closes (o c : brace) : Prop :=
+  open_ok C o /\ N.eqb (b_kw c) (kw_left C (b_kw c)) = false /\ N.eqb (b_kw o) (kw_left C (b_kw c)) = true.
+Definition pair_matched (all : list brace) (p : nat * nat) : Prop :=
+  exists o c, In o all /\ In c all /\ closes o c /\ p = (b_id o, b_id c).
+
+Lemma pm_cons all o c fz : In o all -> In c all -> open_ok C o ->
+  N.eqb (b_kw c) (kw_left C (b_kw c)) = false -> N.eqb (b_kw o) (kw_left C (b_kw c)) = true ->
+  Forall (pair_matched all) fz -> Forall (pair_matched all) ((b_id o, b_id c) :: fz).
+Proof. intros. constructor; [exists o, c; repeat split; auto|auto]. Qed.
+
+Ltac side :=
+  try assumption; try (cbn [length] in *; lia);
+  try (let x := fresh "x" in let Hx := fresh "Hx" in intros x [<-|Hx]; auto; fail);
+  try (constructor; auto; fail); try (apply pm_cons; auto; fail); eauto.
+
+Lemma fuse_loop_pairs_n all : forall n bs opens fz ds o' fz' ds',
+  length bs <= n ->
+  fuse_loop C bs opens fz ds = (o', fz', ds') ->
+  incl bs all -> incl opens all -> Forall (open_ok C) opens -> Forall (pair_matched all) fz ->
+  incl o' all /\ Forall (open_ok C) o' /\ Forall (pair_matched all) fz'.
+Proof.
+  induction n as [|n IH]; intros bs opens fz ds o' fz' ds' Hn E Hbs Hin Hop Hfz.
+  { destruct bs; [|cbn in Hn; lia]. cbn in E. inversion E; subst. auto. }
+  destruct bs as [|t2 rest]; cbn [fuse_loop] in E.
+  { inversion E; subst. auto. }
+  cbn [length] in Hn.
+  assert (Ht2 : In t2 all) by (apply Hbs; now left).
+  assert (Hrest : incl rest all) by (intros x Hx; apply Hbs; now right).
+  destruct (N.eqb (b_kw t2) (kw_left C (b_kw t2))) eqn:Eopen.
+  { eapply IH in E; [exact E|side..]. }
+  destruct opens as [|t1 opens1].
+  { eapply IH in E; [exact E|side..]. }
+  assert (Ht1 : open_ok C t1) by (inversion Hop; auto).
+  assert (Hop1 : Forall (open_ok C) opens1) by (inversion Hop; auto).
+  assert (Hi1 : In t1 all) by (apply Hin; now left).
+  assert (Hin1 : incl opens1 all) by (intros x Hx; apply Hin; now right).
+  destruct (N.eqb (b_kw t1) (kw_left C (b_kw t2))) eqn:E1.
+  { eapply IH in E; [exact E|side..]. }
+  assert (RM : forall t3, In t3 all ->
+            negb (N.eqb (b_kw t3) (kw_left C (b_kw t3))) && N.eqb (b_kw t1) (kw_left C (b_kw t3)) = true ->
+            Forall (pair_matched all) ((b_id t1, b_id t3) :: fz)).
+  { intros t3 H3 Hr. apply andb_true_iff in Hr. destruct Hr as [Ha Hb]. apply negb_true_iff in Ha. apply pm_cons; auto. }
+  destruct opens1 as [|t0 opens2].
+  - destruct rest as [|t3 rest'].
+    + eapply IH in E; [exact E|side..].
+    + assert (H3 : In t3 all) by (apply Hrest; now left).
+      assert (Hr' : incl rest' all) by (intros x Hx; apply Hrest; now right).
+      destruct (negb (N.eqb (b_kw t3) (kw_left C (b_kw t3))) && N.eqb (b_kw t1) (kw_left C (b_kw t3))) eqn:Er.
+      * eapply IH in E; [exact E|side..].
+      * eapply IH in E; [exact E|side..].
+  - assert (Ht0 : open_ok C t0) by (inversion Hop1; auto).
+    assert (Hop2 : Forall (open_ok C) opens2) by (inversion Hop1; auto).
+    assert (Hi0 : In t0 all) by (apply Hin1; now left).
+    assert (Hin2 : incl opens2 all) by (intros x Hx; apply Hin1; now right).
+    assert (LM : N.eqb (b_kw t0) (kw_left C (b_kw t2)) = true -> Forall (pair_matched all) ((b_id t0, b_id t2) :: fz)).
+    { intros Hl. apply pm_cons; auto. }
+    destruct rest as [|t3 rest'].
+    + destruct (N.eqb (b_kw t0) (kw_left C (b_kw t2))) eqn:El.
+      * eapply IH in E; [exact E|side..].
+      * eapply IH in E; [exact E|side..].
+    + assert (H3 : In t3 all) by (apply Hrest; now left).
+      assert (Hr' : incl rest' all) by (intros x Hx; apply Hrest; now right).
+      destruct (N.eqb (b_kw t0) (kw_left C (b_kw t2))) eqn:El;
+        destruct (negb (N.eqb (b_kw t3) (kw_left C (b_kw t3))) && N.eqb (b_kw t1) (kw_left C (b_kw t3))) eqn:Er;
+        cbn [andb] in E.
+      * eapply IH in E; [exact E|side..].
+      * eapply IH in E; [exact E|side..].
+      * eapply IH in E; [exact E|side..].
+      * eapply IH in E; [exact E|side..].
+Qed.
+
+Lemma close_opens_pairs tl opens : forall st fz st' fz', close_opens tl opens st fz = (st', fz') ->
+  forall p, In p fz' -> In p fz \/ exists o, In o opens /\ fst p = b_id o.
+Proof.
+  induction opens as [|o r IH]; intros st fz st' fz'; cbn [close_opens].
+  - intros E; inversion E; subst. auto.
+  - intros E p Hp. destruct (IH _ _ _ _ E p Hp) as [[<-|H]|(x & Hx & Ex)].
+    + right. exists o. split; [now left|reflexivity].
+    + now left.
+    + right. exists x. split; [now right|exact Ex].
+Qed.
+
+(* every pair fuseBraces fuses joins an opening bracket with a closing bracket of the same kind, both among the
+   brackets the main loop remembered; or it joins an opening bracket that was never closed with a token fuseBraces
+   appends for it, and then an unmatched-delimiter error mentions that opening bracket *)
+Theorem fuse_braces_pairs tl st st' fz : fuse_braces C tl st = (st', fz) ->
+  forall p, In p fz ->
+    pair_matched (braces st) p
+    \/ exists o, In o (braces st) /\ open_ok C o /\ fst p = b_id o /\ reported (diags st') o.
+Proof.
+  unfold fuse_braces.
+  destruct (fuse_loop C (rev (braces st)) [] [] []) as [[opens fz0] ds] eqn:El.
+  assert (Hrev : incl (rev (braces st)) (braces st)) by (intros x Hx; now apply in_rev).
+  destruct (fuse_loop_pairs_n (braces st) (length (rev (braces st))) _ _ _ _ _ _ _ (le_n _) El Hrev
+              (fun x (H : In x []) => match H with end) (Forall_nil _) (Forall_nil _)) as (Ho & Hok & Hfz).
+  set (st1 := {| toks := toks st; diags := ds ++ diags st; braces := braces st; bad := bad st; ovf := ovf st |}).
+  destruct (fold_unmatched_diags C (rev opens) st1) as [F1 F2].
+  set (st2 := fold_left (fun s0 o => add_diag (unmatched C (b_kw o) (b_sp o) []) s0) (rev opens) st1) in *.
+  intros E p Hp. destruct (close_opens_mono tl opens st2 fz0 st' fz E) as (C1 & C2 & C3).
+  destruct (close_opens_pairs tl opens _ _ _ _ E p Hp) as [H|(o & Hoo & Eo)].
+  - left. rewrite Forall_forall in Hfz. now apply Hfz.
+  - right. exists o. split; [now apply Ho|]. split; [rewrite Forall_forall in Hok; now apply Hok|]. split; [exact Eo|].
+    destruct (F2 o (proj1 (in_rev _ _) Hoo)) as (d & Hd & Hu & Hs). exists d. split; [now apply C2|]. split; assumption.
+Qed.
+End Pairs.
+
+(* non-vacuity of the bracket theorems: an opener, a stray closer of another kind, the same opener again.  Neither
+   opener is fused with the other one: each gets an empty token at the end, and all three are reported. *)
+Example xlex_brackets_example :
+  xlex parser_cfg repaired [40; 93; 40]%N
+  = XDone [ {| o_kind := 6; o_start := 0; o_end := 1; o_kw := 131; o_off := 4 |};
+            {| o_kind := 6; o_start := 1; o_end := 2; o_kw := 119; o_off := 0 |};
+            {| o_kind := 6; o_start := 2; o_end := 3; o_kw := 131; o_off := 1 |};
+            {| o_kind := 0; o_start := 3; o_end := 3; o_kw := 0; o_off := -1 |};
+            {| o_kind := 0; o_start := 3; o_end := 3; o_kw := 0; o_off := -4 |} ]
+          [ {| d_level := 2; d_class := DUnmatched; d_spans := [(1, 2)] |};
+            {| d_level := 2; d_class := DUnmatched; d_spans := [(0, 1)] |};
+            {| d_level := 2; d_class := DUnmatched; d_spans := [(2, 3)] |} ].
+Proof. vm_compute. reflexivity. Qed.
